@@ -202,6 +202,46 @@ Definition tr_BSWL_range (endpoints : (list go_endpoint_Endpoint)) : ctl (Z * Z 
     (fun st : Z * Z => let '(maxRange, totalWeight) := st in 
     Next (maxRange, totalWeight, minWeight, maxWeight))).
 
+Definition k_tars_failInterval : Z := 5.
+Definition k_tars_fainN : Z := 5.
+Definition k_tars_checkTime : Z := 60.
+Definition k_tars_overN : Z := 2.
+Definition k_tars_tryTimeInterval : Z := 30.
+(* tars/adapter.go: func AdapterProxy.checkActive *)
+Definition tr_checkActive (c_failCount : Z) (c_lastFailCount : Z) (c_status : bool) (c_lastSuccessTime : Z) (c_lastBlockTime : Z) (c_lastCheckTime : Z) (c_closed : bool) (ratio_ge : bool) (reconnect_err : bool) (now_ : Z) : ctl unit (bool * bool * bool * Z) :=
+  if c_closed
+    then Return (false, false, c_status, c_lastBlockTime)
+    else let now := now_ in
+    bindc (if c_status
+      then bindc (if (andb (k_tars_failInterval <=? (wrapS 64 (now - c_lastSuccessTime))) (k_tars_fainN <=? c_lastFailCount))
+          then let c_status := false in
+            let c_lastBlockTime := now in
+            Return (true, false, c_status, c_lastBlockTime)
+          else Next (c_status, c_lastBlockTime))
+        (fun st : bool * Z => let '(c_status, c_lastBlockTime) := st in 
+        bindc (if (k_tars_checkTime <=? (wrapS 64 (now - c_lastCheckTime)))
+          then let c_lastBlockTime := now in
+            bindc (if (andb (k_tars_overN <=? c_failCount) ratio_ge)
+              then let c_status := false in
+                Return (true, false, c_status, c_lastBlockTime)
+              else Next c_status)
+            (fun c_status : bool => 
+            Return (false, false, c_status, c_lastBlockTime))
+          else Next (c_status, c_lastBlockTime))
+        (fun st : bool * Z => let '(c_status, c_lastBlockTime) := st in 
+        Return (false, false, c_status, c_lastBlockTime)))
+      else Next (c_status, c_lastBlockTime))
+    (fun st : bool * Z => let '(c_status, c_lastBlockTime) := st in 
+    bindc (if (k_tars_tryTimeInterval <=? (wrapS 64 (now - c_lastBlockTime)))
+      then let c_lastBlockTime := now in
+        let err := reconnect_err in
+        if (negb (Bool.eqb err false))
+        then Return (false, false, c_status, c_lastBlockTime)
+        else Return (false, true, c_status, c_lastBlockTime)
+      else Next c_lastBlockTime)
+    (fun c_lastBlockTime : Z => 
+    Return (false, false, c_status, c_lastBlockTime))).
+
 (* tars/util/endpoint/parse.go: func Parse, statements "isTcp := int32(0)" .. "e := Endpoint{" *)
 Definition tr_Parse_build (proto : (list N)) (host : (list N)) (bind : (list N)) (port : Z) (timeout : Z) (grid : Z) (qos : Z) (weight : Z) (weightType : Z) (authType : Z) : ctl go_endpoint_Endpoint go_endpoint_Endpoint :=
   let isTcp := 0 in
